@@ -300,11 +300,13 @@ def actionThread : List Thread → Nat → Option (Nat × Pkt)
 /-- what the harness tells an action to return -/
 inductive Rel where
   | out (v : Val)                  -- a new packet
-  | same                           -- the in packet itself
+  | same                           -- the in packet itself (the node hands its tracer a COPY: `node.derive`)
   | err (v : Val)                  -- a new packet on the error port
   | many (vs : List (Option Val))  -- one-to-many: a new packet per `some`
   | drop                           -- nil / no packets
-  | sames (k : Nat)                -- one-to-many: the in packet itself on the outputs 0..k-1 (`[in, in, …]`)
+  | sames (k : Nat)                -- one-to-many: the in packet itself on the outputs 0..k-1 (`[in, in, …]`; copies)
+  | mixed (vs : List (Option (Option Val)))   -- one-to-many: per out port nothing (`none`), a new packet
+                                              -- (`some (some v)`) or the in packet itself (`some none`; a copy)
 
 def allocOuts : List (Option Val) → Pid → List (Option Pkt) × Pid
   | [], nx => ([], nx)
@@ -327,11 +329,13 @@ def release (g : G) (n : Nat) (r : Rel) : Option G :=
     | some (i, p) =>
       let (o, nx) : Outcome × Pid := match r with
         | .out v => (.outs [some { id := g.next, pay := v }], g.next + 1)
-        | .same => (.outs [some p], g.next)
+        | .same => (.outs [some { id := g.next, pay := p.pay }], g.next + 1)
         | .err v => (.err { id := g.next, pay := v }, g.next + 1)
         | .many vs => let (qs, nx) := allocOuts vs g.next; (.outs qs, nx)
         | .drop => (.outs [], g.next)
-        | .sames k => (.outs (List.replicate k (some p)), g.next)
+        | .sames k => let (qs, nx) := allocOuts (List.replicate k (some p.pay)) g.next; (.outs qs, nx)
+        | .mixed vs =>
+          let (qs, nx) := allocOuts (vs.map (fun x => x.map (fun v => v.getD p.pay))) g.next; (.outs qs, nx)
       match step nd (.finish i o) with
       | none => none
       | some (nd', ev) =>
@@ -393,6 +397,7 @@ def runExt : G → List Ext → G
 def Ext.fresh : Ext → Bool
   | .release _ .same => false
   | .release _ (.sames _) => false
+  | .release _ (.mixed _) => false
   | _ => true
 
 /-- nothing left to do: no sink holds a request, no answer waits in a writer's pump, every tracer is
